@@ -99,8 +99,8 @@ def rule_compiles(ctx: Ctx, rid="C07.SHAPE-COMPILES", strict=True, layouts=None,
     irs(ctx)
     fails_ = ctx.pipeline.entry_point_failures
     if fails_:
-        from pyab_static.core import FloorError
-        raise FloorError(f"the library's entry point ({fails_[0][0]}) does steps around parsing and generating that the analyser cannot "
+        # reported at the end of the check: the rules that do not depend on it still run
+        ctx.defer(f"the library's entry point ({fails_[0][0]}) does steps around parsing and generating that the analyser cannot "
                          f"follow for {len(fails_)} shape runs ({fails_[0][1][:160]}): what the evaluator executes for those shapes is not known")
     for o, ir, err in irs(ctx):
         if layouts is not None and o.expose not in layouts:
@@ -129,8 +129,7 @@ def rule_compiles(ctx: Ctx, rid="C07.SHAPE-COMPILES", strict=True, layouts=None,
             ctx.rep.ok(rid, con, "parses as a Python module with the expected skeleton")
     ctx.rep.floor("shape x layout instances", n, 180 if layouts is None else 90)
     if unknown_skeleton:
-        from pyab_static.core import FloorError
-        raise FloorError(f"{len(unknown_skeleton)} of {n} generated modules are valid Python but do not have the evaluation skeleton the "
+        ctx.defer(f"{len(unknown_skeleton)} of {n} generated modules are valid Python but do not have the evaluation skeleton the "
                          f"analyser models ({unknown_skeleton[0][1][:160]}): the template rules cannot be decided")
 
 
